@@ -390,6 +390,10 @@ def pt_part(ck, tier, unforced=False):
         scen.append(("c01_n4_draws", dict(temps=[1, 1, 2, 4], starts=[[-3, 4], [4, -3], [0, 1], [3, 3]], kind="gibbs", display=False,
                                           seed=s + 33, force="edge", prog=[["steps", 1]] + [["swap"], ["steps", 1]] * (10 if tier == "quick" else 40)
                                           + [["return"], ["shutdown"]], delays=[0.0] * 4)))
+        # ... and a ladder NOT sorted by temperature with every draw ON the acceptance threshold of the pair it decides
+        scen.append(("c01_unsorted_threshold", dict(temps=[4, 1, 2], starts=[[-3, 4], [4, -3], [0, 1]], kind="gibbs", display=False, seed=s + 35,
+                                                    force="threshold", prog=[["steps", 1]] + [["swap"], ["steps", 1]] * 6 + [["return"], ["shutdown"]],
+                                                    delays=[0.0] * 3)))
     if tier == "thorough":
         scen.append(("c03_n4_pca", dict(temps=[1, 2, 2, 4], starts=[[-3, 4], [4, -3], [0, 1], [3, 3]], kind="pca", display=False,
                                         seed=s + 32, prog=[["advance", 40, 3], ["return"], ["shutdown"]], delays=[0.0] * 4)))
